@@ -1,8 +1,8 @@
 (* C15 — malformed patterns are rejected, not reinterpreted.
    Statements about Parser.v (the parser of pattern.rs and pattern/*.rs, rule for rule); syn's
    own expression / path / closure parsers are parameters, so everything holds whatever they do. *)
-From ASModel Require Import Base Tokens Report Ast IR Expand Parser FrontEnd.
-From ASProofs Require Import ParserP RejectP.
+From ASModel Require Import Base Tokens Report Ast IR Expand Parser FrontEnd Grammar.
+From ASProofs Require Import ParserP RejectP GrammarP.
 
 (* --- the rejection mechanism: nothing that is left unconsumed is ever accepted --------- *)
 
@@ -95,3 +95,35 @@ Theorem c15_slice_rests_lowered : forall j id sp elems e,
                         count_rest_parts parts = count_rest_elems elems /\ List.length parts = List.length elems.
 Proof. exact slice_rests_lowered. Qed.
 Print Assumptions c15_slice_rests_lowered.
+
+(* --- Soundness of the parser with respect to the declarative grammar of Model/Grammar.v ---------
+   Whatever the macro accepts DERIVES in the grammar: the token list of the invocation is exactly
+   expression `,` pattern, and the pattern's tokens are exactly the constituents of one derivation
+   (so no token of an accepted pattern is dropped: every token belongs to a constituent), built by the
+   documented rules only.  In that grammar `..` occurs in a struct, map or set pattern only as its last
+   token, indexed tuple elements carry their own position, closures have one parameter, `=` is followed
+   by `=` or `~`, operators have an operand.  For every token list, fuel and behaviour of syn's parsers. *)
+Theorem c15_parser_sound : forall regex join_ok parse_expr parse_path parse_closure fuel start ts v p,
+  parse_top_from regex join_ok parse_expr parse_path parse_closure fuel start ts = TOk v p ->
+  G_top regex parse_expr parse_path parse_closure ts v p.
+Proof. exact parse_top_sound. Qed.
+Print Assumptions c15_parser_sound.
+
+Theorem c15_struct_rest_is_last : forall regex parse_expr parse_path parse_closure body fields,
+  G_fields regex parse_expr parse_path parse_closure body fields true ->
+  exists pre dd, body = (pre ++ dd)%list /\ is_punct ".." dd.
+Proof. exact G_fields_rest_last. Qed.
+Print Assumptions c15_struct_rest_is_last.
+
+Theorem c15_map_rest_is_last : forall regex parse_expr parse_path parse_closure body entries,
+  G_map regex parse_expr parse_path parse_closure body entries true ->
+  exists pre dd, body = (pre ++ dd)%list /\ is_punct ".." dd.
+Proof. exact G_map_rest_last. Qed.
+Print Assumptions c15_map_rest_is_last.
+
+Theorem c15_set_rest_is_last : forall regex parse_expr parse_path parse_closure body elems,
+  G_set regex parse_expr parse_path parse_closure body elems true ->
+  (exists pre dd, body = (pre ++ dd)%list /\ is_punct ".." dd) \/
+  (exists dd comma, body = (dd ++ comma)%list /\ is_punct ".." dd /\ is_punct "," comma /\ elems = []).
+Proof. exact G_set_rest_last. Qed.
+Print Assumptions c15_set_rest_is_last.
